@@ -62,6 +62,26 @@ def run(ctx):
     def nontrivial(cfg, lines, obs):
         return any(o.res in ('exc:overflow', 'exc:range') for o in obs)
     VC.run(ctx, cfgs, gen_limit, n, preds=(limit_pred, VC.oracle_pred, VC.fault_pred), nontrivial=nontrivial, label='C08 limit history')
+    # 32-bit size types: a count so large that size() + count exceeds 2^32 - 1 (a sum computed in size_type would wrap to a small value
+    # and pass the capacity check). Always beyond the limit: the request must be refused before anything is touched.
+    cfgs32 = [V.VecCfg('small', 3, 'U32', 'ntr'), V.VecCfg('std', 0, 'U32', 'tc')]
+    def gen_wrap(rng, cfg, k):
+        c = rng.randrange(cfg.pool)
+        sz = rng.randrange(1, 7)
+        lines = [f'apr {c} ' + ','.join(str(rng.randrange(1, 100)) for _ in range(sz))]
+        for _ in range(4):
+            cnt = 2 ** 32 - rng.randrange(0, sz + 1)          # sz + cnt >= 2^32
+            op = rng.choice(['insn', 'apn', 'apv'])
+            if op == 'insn':
+                lines.append(f'insn {c} {rng.randrange(0, sz + 1)} {cnt if cnt < 2 ** 32 else 2 ** 32 - 1} {rng.randrange(1, 100)}')
+            elif op == 'apn':
+                lines.append(f'apn {c} {min(cnt, 2 ** 32 - 1)}')
+            else:
+                lines.append(f'apv {c} {min(cnt, 2 ** 32 - 1)} {rng.randrange(1, 100)}')
+            lines.append(f'push {c} {rng.randrange(1, 100)}'); sz += 1
+        lines.append('new')
+        return lines
+    VC.run(ctx, cfgs32, gen_wrap, max(10, n // 4), preds=(limit_pred, VC.oracle_pred, VC.fault_pred), nontrivial=nontrivial, label='C08 32-bit wrap-around')
     ctx.assume('signed size types share the unsigned word model of the same width (checked by correspondence only)')
 
 def replay(ctx, path):
